@@ -315,6 +315,7 @@ class Check(PropertyCheck):
     def setup(self, tier):
         # the quick tier is faster in one process than the start-up of 16 forked workers
         self.parallel = tier == "thorough"
+        self.known_selftest()
 
     # ---- translator -------------------------------------------------------------------------------------------
     def translate(self):
@@ -469,16 +470,16 @@ class Check(PropertyCheck):
                 return {"size": human.parse_size(s)}
             except ValueError:
                 return {"size": "err"}
-        for k in ("limit", "thr"):
-            if case[k] is not None and not case[k].isascii(): raise Skip()
-        return run_flow(case)
+        return run_flow(case)      # (non-ASCII option strings: the implementation and the oracle still run; only the
+                                   #  ASCII-only model abstains, see model_lines)
 
     # ---- oracle: the property statement over the implementation's observable ----------------------------------------
     def oracle(self, case, obs):
         if case["op"] == "size" or obs.get("rejected"): return []
         fails = []
-        if obs.get("trailer"): return []     # HTTP/1 trailers are not implemented in mitmproxy: outside this property
-        if obs["crash"]: fails.append("layer raised: " + obs["crash"][0])
+        # HTTP/1 trailers are not implemented in mitmproxy (NotImplementedError): only that crash is outside this property
+        crash = [c for c in obs["crash"] if not (obs.get("trailer") and c.startswith("NotImplementedError"))]
+        if crash: fails.append("layer raised: " + crash[0])
         wire = case["op"] == "wire"
         if wire:
             # independent strict decode of the wire; a segmentation-independent statement is only demanded for
@@ -511,7 +512,7 @@ class Check(PropertyCheck):
             if known_cl or known_buf:
                 why = "Content-Length" if known_cl else "buffered bytes"
                 if not errored: fails.append(f"over-limit ({why}): no error hook with the body_size_limit error")
-                elif (obs["client_status"] is None or obs["client_status"] < 400) and not (wire and done_at is None and case["framing"] == "chunked"):
+                elif (obs["client_status"] is None or obs["client_status"] < 400) and not self._double_fault(case, obs, lim0):
                     # (a malformed chunked continuation in the same segment closes the connection as a protocol error
                     #  before the error response can be written: not demanded)
                     fails.append(f"over-limit ({why}): client did not receive an error response")
@@ -521,6 +522,19 @@ class Check(PropertyCheck):
                     if s > lim0 + max(dl[: i + 1] or [0]):
                         fails.append(f"buffer-bound: holds {s} bytes after delivery {i} with limit {limit} and largest chunk {max(dl[: i + 1] or [0])}")
                         break
+        # "When a body is streamed (stream_large_bodies threshold exceeded, or an addon enables streaming), it is relayed
+        #  without buffering": whether streaming is due is decided from the INPUTS (policy, declared length, threshold),
+        #  not from what the implementation did
+        declared_len = (case["cl"] if wire else len(body)) if case["framing"] == "cl" else None
+        thr = human.parse_size(case["thr"])
+        due = (case["policy"] == "true" or case["policy"] in CALLABLES
+               or (declared_len is not None and thr is not None and declared_len > thr and case["policy"] != "false"))
+        over = limit is not None and declared_len is not None and declared_len > limit
+        ends_with_head = declared_len == 0 or (not wire and case.get("glue") and len(chunks) <= 1 and case["framing"] == "cl") \
+            or (wire and done_at == 0)
+        if due and not over and not ends_with_head and not errored and not obs.get("proto_err") and not obs.get("trailer") \
+                and obs["n_deliveries"] > 1 and not (obs["relayed"] and obs["head_at"] == 0):
+            fails.append("not-streamed: streaming was due from the headers on, but the head was not relayed when the headers arrived")
         if wire and (done_at is None or case["policy"] in ("dup", "iter") or obs["proto_err"]):
             return fails        # incomplete / malformed wire, or a callable whose result depends on the event boundaries
         if not errored and obs["relayed"]:
@@ -545,6 +559,20 @@ class Check(PropertyCheck):
         return fails
 
     @staticmethod
+    def _double_fault(case, obs, lim0):
+        """wire case in which the delivery that shows the excess also carries bytes beyond the last well-formed chunk:
+        the readers raise a protocol error in that same read_body call and the connection is closed first"""
+        if case["op"] != "wire" or case["framing"] != "chunked": return False
+        raw = b"".join(unhx(x) for x in case["segs"])
+        chunks, ok, left = read_chunked(raw)
+        if ok: return False
+        fail_pos = len(raw) - len(left)
+        i_detect = next((i for i, sm in enumerate(obs["samples"]) if sm > lim0), None)
+        if i_detect is None or i_detect == 0: return False
+        upto = sum(len(unhx(x)) for x in case["segs"][:i_detect])       # bytes delivered through delivery i_detect
+        return upto > fail_pos
+
+    @staticmethod
     def _delivery_chunk_lens(case, chunks):
         lens = [len(c) for c in chunks]
         if case.get("glue") and lens: out = lens[:]
@@ -553,17 +581,70 @@ class Check(PropertyCheck):
         return out
 
     def known(self, case, obs, failure):
-        # F-C07a: body_size_limit is not applied to what store_streamed_bodies accumulates while streaming
-        if case["op"] in ("flow", "wire") and case["store"] and case["limit"] is not None and obs.get("relayed") \
-                and (failure.startswith("buffer-bound:") or failure.startswith("over-limit (buffered bytes)")):
-            return "F-C07a"
+        """F-C07a exactly: store_streamed_bodies on, body_size_limit set, the body was being STREAMED (head relayed before
+        the message ended), the flow did not error, the first moment the buffer exceeds the limit lies at or after the
+        start of streaming, and the failure is one of the three consequences of the missing check."""
+        if case.get("op") not in ("flow", "wire") or not case["store"] or case["limit"] is None: return None
+        if obs.get("rejected") or not obs.get("relayed") or obs.get("head_at") is None: return None
+        if any(LIMIT_MSG in e for e in obs["errors"]): return None
+        try: lim0 = max(human.parse_size(case["limit"]), 0)
+        except ValueError: return None
+        first_over = next((i for i, sm in enumerate(obs["samples"]) if sm > lim0), None)
+        if first_over is None or first_over < obs["head_at"]: return None        # excess while still buffering: not this
+        if failure == "over-limit (buffered bytes): no error hook with the body_size_limit error": return "F-C07a"
+        if failure.startswith("over-limit (buffered bytes): ") and failure.endswith(" body bytes were forwarded"): return "F-C07a"
+        if failure.startswith("buffer-bound: holds "):
+            try: at = int(failure.split(" after delivery ")[1].split(" ")[0])
+            except (IndexError, ValueError): return None
+            return "F-C07a" if at >= obs["head_at"] else None
         return None
+
+    def known_selftest(self):
+        """frozen observations (independent of the tree under test): positive witness + near misses of F-C07a"""
+        base = {"op": "flow", "dir": "req", "framing": "chunked", "limit": "6", "thr": "3", "store": 1, "policy": "none",
+                "chunks": ["61626364", "65666768", "696a6b6c"], "glue": False}
+        obs = {"rejected": False, "errors": [], "client_status": None, "relayed": True, "head_at": 1,
+               "samples": [0, 4, 8, 12, 0], "peer_chunks": ["61626364", "65666768", "696a6b6c"], "n_deliveries": 5}
+        nohook = "over-limit (buffered bytes): no error hook with the body_size_limit error"
+        fwd = "over-limit (buffered bytes): 12 body bytes were forwarded"
+        bb = "buffer-bound: holds 12 bytes after delivery 3 with limit 6 and largest chunk 4"
+        buffered = dict(obs, head_at=4, samples=[0, 4, 8, 12, 0])       # excess while still buffering, relayed at the end
+        T = [
+            (base, obs, nohook, "F-C07a"), (base, obs, fwd, "F-C07a"), (base, obs, bb, "F-C07a"),
+            # (a) same input class, other clause of the oracle
+            (base, obs, "streamed: peer received b'', expected b'abcdefghijkl'", None),
+            (base, obs, "streamed: what the peer received is not one well-framed body (stray bytes b'0')", None),
+            (base, obs, "over-limit (buffered bytes): client did not receive an error response", None),
+            (base, obs, "over-limit (Content-Length): no error hook with the body_size_limit error", None),
+            (base, obs, "not-streamed: streaming was due from the headers on, but the head was not relayed when the headers arrived", None),
+            (base, obs, "layer raised: AssertionError: x", None),
+            # (b) neighbouring inputs with the same kind of failure
+            (dict(base, store=0), obs, nohook, None), (dict(base, store=0), obs, bb, None),
+            (dict(base, limit=None), obs, nohook, None),
+            (base, buffered, nohook, None), (base, buffered, fwd, None),
+            (base, dict(buffered), "buffer-bound: holds 12 bytes after delivery 3 with limit 6 and largest chunk 4", None),
+            (base, dict(obs, relayed=False, head_at=None), nohook, None),
+            (base, dict(obs, errors=["Request " + LIMIT_MSG]), fwd, None),
+            (base, dict(obs), "buffer-bound: holds 8 bytes after delivery 0 with limit 6 and largest chunk 0", None),
+            ({"op": "size", "s_hex": "31"}, {"size": 1}, nohook, None),
+        ]
+        for case, o, failure, want in T:
+            got = self.known(case, o, failure)
+            if got != want:
+                raise AssertionError(f"known_selftest: known() gave {got!r}, expected {want!r} for {failure!r} on {case}")
+        # the oracle clauses behind the finding, on the frozen positive observation
+        full = dict(obs, client_closed=False, out_framing="chunked", framing_ok=True, leftover_hex="-", content_hex="6162636465666768696a6b6c",
+                    crash=[], proto_err=False, trailer=False)
+        fs = self.oracle(base, full)
+        if not any(self.known(base, full, f) == "F-C07a" for f in fs) or any(self.known(base, full, f) is None for f in fs):
+            raise AssertionError(f"known_selftest: oracle on the frozen F-C07a witness gave {fs}")
 
     # ---- model tie --------------------------------------------------------------------------------------------
     def model_lines(self, case):
         if case["op"] == "size":
             return ["size " + case["s_hex"]]
         opt = lambda v: "none" if v is None else hx(v.encode())
+        if any(case.get(k) is not None and not case[k].isascii() for k in ("limit", "thr")): raise Skip()
         if case["op"] == "wire":
             fr = f"cl:{case['cl']}" if case["framing"] == "cl" else case["framing"]
             return [f"wire {case['dir']} {opt(case['limit'])} {opt(case['thr'])} {case['store']} {case['policy']} {fr} "
